@@ -14,6 +14,7 @@ import (
 	"github.com/pentops/j5/internal/j5s/protobuild"
 	"github.com/pentops/j5/internal/j5s/protoprint"
 	"github.com/pentops/log.go/log"
+	"google.golang.org/protobuf/reflect/protoreflect"
 	"google.golang.org/protobuf/types/descriptorpb"
 )
 
@@ -114,5 +115,10 @@ func compileBundle(src *memFiles, pkgs []string) (map[string]linker.Files, *prot
 
 // printFile renders a compiled file as .proto text the way the CLI does.
 func printFile(f linker.File) (string, error) {
+	return protoprint.PrintFile(context.Background(), f, "")
+}
+
+// printFileDesc prints any linked file descriptor (not necessarily a protocompile linker.File).
+func printFileDesc(f protoreflect.FileDescriptor) (string, error) {
 	return protoprint.PrintFile(context.Background(), f, "")
 }
